@@ -27,11 +27,25 @@ func C15(r *Run) *core.Report {
 	nGo := 0
 	janitors := map[*ssa.Function]bool{}
 	finalizers := map[*ssa.Function]bool{}
+	c15TwinVerdicts = [2]map[string]bool{{}, {}}
 	for i := 0; i < 2; i++ {
 		ctor := r.M.CacheCtor[i]
 		if ctor == nil {
 			continue
 		}
+		obsBefore := len(rep.Obs)
+		defer func(twin, from int) {}(i, obsBefore)
+		recordTwin := func() {
+			for _, o := range rep.Obs[obsBefore:] {
+				if _, seen := c15TwinVerdicts[i][o.Rule]; !seen {
+					c15TwinVerdicts[i][o.Rule] = true
+				}
+				if o.Status != core.Pass {
+					c15TwinVerdicts[i][o.Rule] = false
+				}
+			}
+		}
+		_ = recordTwin
 		rep.Fn(fn(ctor))
 		inner := r.M.CacheT[i]
 		wrap := r.M.WrapT[i]
@@ -57,32 +71,54 @@ func C15(r *Run) *core.Report {
 		})
 		for _, g := range goes {
 			nGo++
-			mc, ok := g.Common().Value.(*ssa.MakeClosure)
-			if !ok {
-				rep.Undecided("C15.J1", fn(ctor)+" go", r.P.InstrPos(g), "go statement does not start a function literal")
+			// the goroutine body: a function literal (captures cells) or a function / method started with arguments
+			var cl *ssa.Function
+			mc, _ := g.Common().Value.(*ssa.MakeClosure)
+			if mc != nil {
+				cl = mc.Fn.(*ssa.Function)
+			} else if cal := core.Callee(g); cal != nil && cal.Blocks != nil {
+				cl = cal
+			}
+			if cl == nil {
+				rep.Undecided("C15.J1", fn(ctor)+" go", r.P.InstrPos(g), "go statement starts neither a function literal nor a function of this package")
 				continue
 			}
-			cl := mc.Fn.(*ssa.Function)
 			janitors[cl] = true
 			rep.Fn(fn(cl))
-			// ticker argument inside the goroutine: load of a field of a captured cell
+			// toCtor maps a value inside the goroutine body to the (cell, field) it reads in the constructor
+			toCtor := func(v ssa.Value) (ssa.Value, string) {
+				v = core.StripConv(v)
+				if prm, isP := v.(*ssa.Parameter); isP && mc == nil {
+					for pi, q := range cl.Params {
+						if q == prm && pi < len(g.Common().Args) {
+							if ld, isLd := core.StripConv(g.Common().Args[pi]).(*ssa.UnOp); isLd {
+								a := core.Addr(ld.X)
+								return a.Root, a.Field
+							}
+						}
+					}
+					return nil, ""
+				}
+				if ld, isLd := v.(*ssa.UnOp); isLd {
+					a := core.Addr(ld.X)
+					if fv, isFV := a.Root.(*ssa.FreeVar); isFV && mc != nil {
+						for bi, x := range cl.FreeVars {
+							if x == fv {
+								return mc.Bindings[bi], a.Field
+							}
+						}
+					}
+				}
+				return nil, ""
+			}
+			// ticker argument inside the goroutine
 			var tickField string
 			var tickCell ssa.Value
 			var tickerVal ssa.Value
 			core.Instrs(cl, func(in ssa.Instruction) {
 				if c, ok := in.(*ssa.Call); ok && (core.CalleeID(c) == "time.NewTicker" || core.CalleeID(c) == "time.Tick" || core.CalleeID(c) == "time.NewTimer" || core.CalleeID(c) == "time.After") {
 					tickerVal = c
-					if ld, ok := c.Call.Args[0].(*ssa.UnOp); ok {
-						a := core.Addr(ld.X)
-						tickField = a.Field
-						if fv, ok := a.Root.(*ssa.FreeVar); ok {
-							for bi, x := range cl.FreeVars {
-								if x == fv {
-									tickCell = mc.Bindings[bi]
-								}
-							}
-						}
-					}
+					tickCell, tickField = toCtor(c.Call.Args[0])
 				}
 			})
 			if tickerVal == nil {
@@ -132,14 +168,31 @@ func C15(r *Run) *core.Report {
 			rep.Check(guarded && tickerVal != nil, "C15.J1", fn(ctor)+" janitor guard", r.P.InstrPos(g), "goroutine started only when the interval its ticker uses ("+tickField+") is strictly positive",
 				"the janitor goroutine is not started under a guard implying a strictly positive "+tickField+" (the value its ticker is built from): with an interval <= 0 it would run (or panic in the ticker), or with a positive one not run")
 			// ticker case calls DeleteExpired; stop case returns
-			c15select(r, rep, i, ctor, cl, mc, tickerVal, inner)
-			// J2 captures
-			for bi, b := range mc.Bindings {
+			c15select(r, rep, i, ctor, cl, tickerVal, inner)
+			// J2 captures / arguments
+			var inputs []ssa.Value
+			var inNames []string
+			if mc != nil {
+				for bi, b := range mc.Bindings {
+					inputs = append(inputs, b)
+					inNames = append(inNames, cl.FreeVars[bi].Name())
+				}
+			} else {
+				for ai, a := range g.Common().Args {
+					inputs = append(inputs, a)
+					nm := fmt.Sprintf("arg%d", ai)
+					if ai < len(cl.Params) {
+						nm = cl.Params[ai].Name()
+					}
+					inNames = append(inNames, nm)
+				}
+			}
+			for bi, b := range inputs {
 				t := b.Type()
 				bad := reachesType(t, wrap, 0)
-				rep.Check(!bad, "C15.J2", fmt.Sprintf("%s captures %s", fn(cl), cl.FreeVars[bi].Name()), r.P.InstrPos(g), "captured variable cannot reference the wrapper", "the janitor goroutine captures a variable through which the outer wrapper is reachable ("+typeName(t)+"): the wrapper never becomes unreachable, its finalizer never runs and the goroutine leaks")
+				rep.Check(!bad, "C15.J2", fmt.Sprintf("%s receives %s", fn(cl), inNames[bi]), r.P.InstrPos(g), "value handed to the goroutine cannot reference the wrapper", "the janitor goroutine is handed a value through which the outer wrapper is reachable ("+typeName(t)+"): the wrapper never becomes unreachable, its finalizer never runs and the goroutine leaks")
 				if b == ssa.Value(wrapAlloc) {
-					rep.Fail("C15.J2", fmt.Sprintf("%s captures the wrapper", fn(cl)), r.P.InstrPos(g), "the janitor goroutine captures the wrapper object itself")
+					rep.Fail("C15.J2", fmt.Sprintf("%s receives the wrapper", fn(cl)), r.P.InstrPos(g), "the janitor goroutine is handed the wrapper object itself")
 				}
 			}
 			// the closure body must not call methods through the wrapper type either
@@ -243,6 +296,7 @@ func C15(r *Run) *core.Report {
 			}
 		})
 		rep.Check(made, "C15.J4", fn(ctor)+" creates stop", r.P.Pos(ctor.Pos()), "stop channel created by the constructor", "the stop channel is not created by the constructor (a nil channel never delivers: the janitor would never stop)")
+		recordTwin()
 	}
 	rep.MinCount("C15.J1", "janitor go statements", nGo, 2)
 	// J4/J5 module-wide
@@ -276,6 +330,9 @@ func C15(r *Run) *core.Report {
 	}
 	return rep
 }
+
+// c15TwinVerdicts records, per twin constructor, whether each C15 rule family held (used by C12.W4).
+var c15TwinVerdicts [2]map[string]bool
 
 func isChanField(t *types.Named, field string) bool {
 	st, ok := t.Underlying().(*types.Struct)
@@ -376,7 +433,7 @@ func positiveTest(cond ssa.Value) (posOnTrue bool, field string, cell ssa.Value,
 
 // c15select checks the janitor loop: the ticker case calls DeleteExpired on the captured inner object and
 // the stop case leaves the goroutine.
-func c15select(r *Run, rep *core.Report, idx int, ctor, cl *ssa.Function, mc *ssa.MakeClosure, ticker ssa.Value, inner *types.Named) {
+func c15select(r *Run, rep *core.Report, idx int, ctor, cl *ssa.Function, ticker ssa.Value, inner *types.Named) {
 	var sel *ssa.Select
 	core.Instrs(cl, func(in ssa.Instruction) {
 		if s, ok := in.(*ssa.Select); ok {
